@@ -144,7 +144,7 @@ CLAIMED = {
         text="Bounded model checking: the Debug output of Bytes/BytesMut, captured in a fixed-array fmt::Write sink and parsed back by an "
              "independent byte-string-literal decoder written in the harness, equals the contents for ALL byte strings of length 0, 1, 2 and 3 "
              "(every byte value symbolic, i.e. all 256 / 65536 / 2^24 strings, incl. every escape adjacency); {:x}/{:X} print exactly two digits "
-             "of the right case per byte in order (1-2 symbolic bytes); with serde, serialize hands serialize_bytes exactly the contents and "
+             "of the right case per byte in order (1-2 symbolic bytes; one concrete 66-byte buffer for completeness beyond one 64-byte block, each piece written checked at a symbolic position); with serde, serialize hands serialize_bytes exactly the contents and "
              "deserialize through visit_bytes / visit_byte_buf / visit_borrowed_bytes / visit_seq / visit_str / visit_string / visit_borrowed_str "
              "returns equal contents (symbolic contents up to 3 bytes, concrete size hints None / exact / 0).",
         note=COMMON_NOTE + "Strings longer than 3 bytes are outside (the formatter loop treats each byte independently - stated, not solver-checked); "
